@@ -13,7 +13,7 @@ META = {
                  "that inserts into a table marks its object as filled and the object is stored under that flag (table "
                  "entries stay reachable); R04.4 address events / malformed messages are stored only behind the "
                  "other-data hint test; R04.5 the preamble serialises exactly the hint words the guards read and blocks are "
-                 "re-armed with the parameters of the index they carry. R04.6 (R19.2 restricted): CdnsBlock::operator= takes m_block_parameters and m_block_preamble from the source, directly or through a copy-aside temporary that is swapped in.",
+                 "re-armed with the parameters of the index they carry. R04.6 (R19.2 restricted): CdnsBlock::operator= takes m_block_parameters and m_block_preamble from the source, directly or through a copy-aside temporary that is swapped in. R04.7: a data member that is always assigned the same function of other members (cdnsverif/derived.py) is recomputed by every member function that changes those members; the lazy form under a validity flag / stored key is refreshed before every read and invalidated after every change (cached hint masks).",
     "explanation": "Guard (control-dependence) analysis on structured code: whether a hint test dominates the insertion and "
                    "the assignment does not depend on the mask value, so the verdict covers all 2^18 x 2^17 x 4 x 4 masks.",
     "trusted_base": ["clang 14 AST", "rfc8618_tables.json (hint bit numbers)"],
